@@ -57,6 +57,12 @@ class Check:
                               'actions_never_taken': cov0,
                               'cmd': res.cmd})
         if expect_ok and (not res.ok or res.violation):
+            try:
+                with open(os.path.join(os.environ.get('TMPDIR', '/tmp'),
+                                       'verif-tlc-fail-%s-%s.log' % (self.prop, name.replace(' ', '_').replace('/', '_'))), 'w') as f:
+                    f.write(res.out)
+            except OSError:
+                pass
             self.machinery_errors.append(
                 'TLC run %s failed (rc=%s, timed_out=%s):\n%s'
                 % (name, res.rc, res.timed_out, res.out[-3000:]))
